@@ -39,8 +39,9 @@ CONSTANTS Recs,     \* recorder ids
           W,        \* counter modulus
           MaxOps    \* exhaustive runs: explore histories of at most MaxOps operations
 
-VARIABLE st         \* st[r]: state of recorder r (record, see InitRec)
-vars == <<st>>
+VARIABLES st,       \* st[r]: state of recorder r (record, see InitRec)
+          nops      \* number of calls so far (bounds the exhaustive runs; not used by the conformance specs)
+vars == <<st, nops>>
 
 Metric == Kinds \X Names \X LSets
 KN     == Kinds \X Names
@@ -66,7 +67,7 @@ InitRec(w) ==
     gval  |-> <<>>,
     since |-> <<>> ]
 
-Init == st = [r \in Recs |-> InitRec(W)]
+Init == st = [r \in Recs |-> InitRec(W)] /\ nops = 0
 
 ----------------------------------------------------------------------------
 (* describe_metric (debugging.rs:159-166):                                  *)
@@ -143,18 +144,20 @@ HistRecord(r, m, o)     == /\ KindOf(m) = "h" /\ m \in DOMAIN st[r].hs
                            /\ st' = [st EXCEPT ![r] = RecordF(@, m, o[2], o[3])]
 Snapshot(r)             == st' = [st EXCEPT ![r] = SnapshotF(@)]
 
-Step(r) ==
-  \/ \E k \in Kinds, n \in Names, u \in Units \cup {0}, d \in Descs : Describe(r, k, n, u, d)
-  \/ \E m \in Metric : Register(r, m)
-  \/ \E m \in Metric, o \in COps : CounterOp(r, m, o)
-  \/ \E m \in Metric, o \in GOps : GaugeOp(r, m, o)
-  \/ \E m \in Metric, o \in HOps : HistRecord(r, m, o)
-  \/ Snapshot(r)
+\* exhaustive runs: every history of at most MaxOps calls.  (A step counter in the state rather than
+\* TLCGet("level"): with several workers the level at which a state is first found is not always its
+\* distance from the initial state, which would make the explored set depend on timing.)
+DepthOK == nops < MaxOps /\ nops' = nops + 1
 
-\* exhaustive runs: every history of at most MaxOps operations (the initial state has level 1;
-\* a state reached by MaxOps operations is checked but not extended)
-DepthOK == TLCGet("level") <= MaxOps
-Next == DepthOK /\ \E r \in Recs : Step(r)
+DescribeAny == \E r \in Recs, k \in Kinds, n \in Names, u \in Units \cup {0}, d \in Descs :
+                  DepthOK /\ Describe(r, k, n, u, d)
+RegisterAny == \E r \in Recs, m \in Metric : DepthOK /\ Register(r, m)
+CounterAny  == \E r \in Recs, m \in Metric, o \in COps : DepthOK /\ CounterOp(r, m, o)
+GaugeAny    == \E r \in Recs, m \in Metric, o \in GOps : DepthOK /\ GaugeOp(r, m, o)
+RecordAny   == \E r \in Recs, m \in Metric, o \in HOps : DepthOK /\ HistRecord(r, m, o)
+SnapshotAny == \E r \in Recs : DepthOK /\ Snapshot(r)
+
+Next == DescribeAny \/ RegisterAny \/ CounterAny \/ GaugeAny \/ RecordAny \/ SnapshotAny
 
 Spec == Init /\ [][Next]_vars
 
